@@ -5,8 +5,7 @@
      M.name, M.module        class and module name
      M.kind                  "library" | "base" | "custom" | "mixture" | "void"
      M.inst                  "ok" if cls() returned, else "exception:<type>"
-     M.entries               sequence of [nuc, ppb, tol]: massFrac after construction; ppb = mass fraction in parts per billion,
-                             tol = half a unit in the last decimal place of the datum as written, in ppb (at least 1)
+     M.entries               sequence of [nuc, ppb]: massFrac after construction; ppb = mass fraction in parts per billion
      M.ranges                sequence of [label, stated, unit, fn, lo, hi, samples]: fn evaluated at temperatures from lo to hi
                              (both end points exactly as stated, in the stated unit, thousandths of a degree);
                              samples = sequence of <<t, status, q>>: status "ok" | "none" | "complex" | "nonfinite" | "type:.." |
@@ -17,7 +16,8 @@
      * library material = every class of armi.materials except the abstract bases (Material, Fluid, SimpleSolid, FuelMaterial, Water),
        Custom (user-supplied composition), _Mixture (homogenised blocks) and Void (zero density by definition).  For those only
        Instantiable / KnownNuclides / FractionsInRange (and Normalised when they do carry a composition) are required.
-     * "mass fractions summing to one within data precision": |sum - 1| <= sum of the data precisions of the entries.
+     * "mass fractions summing to one within data precision": |sum - 1| <= MassFracTol = 1e-5.  The finest hand-typed composition
+       of the library has six decimals (MOX, nine entries summing to 0.999999); 1e-5 is ten units of that last decimal.
      * "density" is Material.density (g/cm3, what Component number densities are built from) and Material.pseudoDensity (the 2-D
        density of the base class, identical to density for fluids); both must be finite and positive.  "expansion" is
        linearExpansionPercent (and volumetricExpansion where the class states a range for it); it must be a finite real.
@@ -28,6 +28,7 @@
 EXTENDS Integers, Sequences, FiniteSets, TLC, SequencesExt
 
 Unit == 1000000000
+MassFracTol == 10000
 MFail(clause, col, who, detail) == [clause |-> clause, col |-> col, who |-> who, detail |-> ToString(detail)]
 SumSeq(s) == FoldLeft(LAMBDA acc, x : acc + x, 0, s)
 IsLibrary(M) == M.kind = "library"
@@ -42,13 +43,12 @@ FractionsInRange(M) ==
         j \in { k \in 1..Len(M.entries) : M.entries[k].ppb < 0 \/ M.entries[k].ppb > Unit } }
 
 Total(M) == SumSeq([j \in 1..Len(M.entries) |-> M.entries[j].ppb])
-Precision(M) == SumSeq([j \in 1..Len(M.entries) |-> M.entries[j].tol])
 Normalised(M) ==
     IF M.inst # "ok" THEN {}
     ELSE IF Len(M.entries) = 0
          THEN (IF IsLibrary(M) THEN { MFail("Normalised", "empty", M.name, "no mass fractions") } ELSE {})
-         ELSE IF Total(M) - Unit > Precision(M) \/ Unit - Total(M) > Precision(M)
-              THEN { MFail("Normalised", "sum", M.name, [sumPpb |-> Total(M), precisionPpb |-> Precision(M)]) } ELSE {}
+         ELSE IF Total(M) - Unit > MassFracTol \/ Unit - Total(M) > MassFracTol
+              THEN { MFail("Normalised", "sum", M.name, [sumPpb |-> Total(M), tolerancePpb |-> MassFracTol]) } ELSE {}
 
 (* one failure per (function, range): the first offending temperature and how many there are *)
 Bad(R, positive) == { j \in 1..Len(R.samples) : R.samples[j][2] # "ok" \/ (positive /\ R.samples[j][3] <= 0) }
